@@ -134,35 +134,38 @@ func checkC13(c *Ctx, r *Report) {
 		r.Fatalf("%v", err)
 		return
 	}
-	// (a) ZA
+	// (a) ZA: the concatenation of everything written to the hash, in order, as canonical byte-string expressions
 	if fn := p.MustFunc(r, "sm2.ZA"); fn != nil {
 		h, sum := findHashSum(fn)
 		if h == nil || sum == nil {
 			r.Fatalf("unresolved anchor: sm3.New()/Sum in sm2.ZA")
 		} else {
 			args, probs := hashWrites(fn, h, sum)
-			var names []string
+			f := NewFolder(p)
+			ps := newPathSym(p, fn, f)
+			ps.WalkTo(sum.Block())
+			var parts []string
 			for _, a := range args {
-				names = append(names, describeArg(p, fn, a))
+				parts = append(parts, ps.S(a))
 			}
-			want := []string{"local:entlBytes", "param:id", "global:sm2.zBytes", "param:pubx", "param:puby"}
-			// the first element is identified by role (2-byte array filled by PutUint16), not by its name
-			ok := len(names) == 5 && len(probs) == 0
-			if ok {
-				for i := 1; i < 5; i++ {
-					if names[i] != want[i] {
-						ok = false
-					}
+			got := strings.Join(parts, "||")
+			zb, err := f.GlobalByName("sm2", "zBytes")
+			zName := "?"
+			if err == nil && zb.k == fBytes {
+				zName = fmt.Sprintf("bytes%d(#%s)", len(zb.bytes), new(bigInt).SetBytes(zb.bytes).Text(16))
+			}
+			okSeq := false
+			for _, entl := range []string{"be16((len(id) << 3))", "be16((len(id) * 8))", "be16((8 * len(id)))"} {
+				if got == entl+"||id||"+zName+"||pubx||puby" {
+					okSeq = true
 				}
 			}
-			entlOK, entlDetail := false, "first Write is not a local 2-byte array"
-			if len(args) > 0 {
-				entlOK, entlDetail = c13Entl(p, fn, args[0])
+			short := got
+			if len(short) > 400 {
+				short = strings.Replace(short, zName, "<a||b||Gx||Gy>", 1)
 			}
-			r.Check(ok, "HASH-INPUT-SEQUENCE", "sm2.ZA", p.InstrPos(sum), fmt.Sprintf("Write arguments %v, expected [ENTL, id, zBytes, pubx, puby]%s", names, ifs(len(probs) > 0, "; "+strings.Join(probs, "; "))))
-			r.Check(entlOK, "ENTL-ENCODING", "sm2.ZA", p.InstrPos(sum), entlDetail)
+			r.Check(okSeq && len(probs) == 0, "HASH-INPUT-SEQUENCE", "sm2.ZA", p.InstrPos(sum), fmt.Sprintf("bytes fed to SM3, in order: %s; expected ENTL(be16 of 8*len(id))||id||<a||b||Gx||Gy>||pubx||puby%s", short, ifs(len(probs) > 0, "; "+strings.Join(probs, "; "))))
 			r.Check(isNilConst(sum.Call.Args[0]), "HASH-INPUT-SEQUENCE", "sm2.ZA Sum(nil)", p.InstrPos(sum), "the digest is Sum(nil): nothing is prepended")
-			// the returned za is the Sum result
 			for _, b := range fn.Blocks {
 				for _, in := range b.Instrs {
 					if ret, ok := in.(*ssa.Return); ok && isNilConst(ret.Results[1]) {
